@@ -254,6 +254,8 @@ def run(ctx):
     rep.cov["evaluations"] = len(cases) + nre
     rep.cov["distinct_nontrivial"] = len(nontrivial)
     rep.cov["exhaustive"] = True
+    rep.cov["further_legs"] = ("runs of 40 ... 5000 blanks / tabs at the three optional-blank places of every keyword; six repeated runs of the real binary on "
+                               "stressgen.annotation_stress(12, 120): every annotation line is read in every run (1440 IMM01)")
     rep.cov["rule"] = ("comment lines = '//' + ALL token sequences of length <= %d over a 20-token alphabet per keyword (blanks, //, the keyword, near-keywords in other case / longer / split, another keyword, "
                        ", . & ; - and argument shapes), enumerated exhaustively at the keyword's attachment site; sampled longer sequences; every argument shape x lead x tail at EVERY site "
                        "(type, func, method, field of @immutable struct, grouped spec - also a group of two where the second member has no doc, a documented group, a documented group with a documented member -, var for @ignore; inert: trailing, local declaration (in a function, in a function literal of a package-level initialiser, in a local group), detached, var doc, field of plain struct); two keywords on one "
